@@ -461,7 +461,7 @@ fn vft_family(props: &str, out: &mut Vec<Fail>) -> usize {
 // ------------------------------------------------------------------------------------------------ enums (C08 C02 C15 C17)
 fn enum_family(seed: u64, quick: bool, props: &str, out: &mut Vec<Fail>) -> usize {
     let bases = [("u8", 1usize), ("i8", 1), ("u16", 2), ("u32", 4), ("i32", 4), ("u64", 8)];
-    let vals: [Option<i64>; 7] = [None, Some(-2), Some(0), Some(1), Some(5), Some(100), Some(127)];
+    let vals: [Option<i64>; 8] = [None, Some(-129), Some(-2), Some(0), Some(1), Some(127), Some(255), Some(256)];
     let mut n = 0;
     for (b, bsz) in bases {
         for nv in 1..=3usize {
@@ -490,7 +490,13 @@ fn enum_family(seed: u64, quick: bool, props: &str, out: &mut Vec<Fail>) -> usiz
                                 // reference
                                 let mut ev = vec![]; let mut next = 0i64;
                                 for v in &vs { let x = v.unwrap_or(next); ev.push(x); next = x + 1; }
-                                let accept = (def < nv) == defaultable && sing != Some(-1);
+                                // a value must be representable in the base type: the signed range for a signed base; for an unsigned base
+                                // the unsigned range and, below zero, the two's-complement spelling (the suite pins `-2` in a u32 enum)
+                                let signed = b.starts_with('i');
+                                let (lo, hi): (i128, i128) = match (bsz, signed) { (1, true) => (-0x80, 0x7f), (1, false) => (-0x80, 0xff), (2, true) => (-0x8000, 0x7fff), (2, false) => (-0x8000, 0xffff),
+                                    (4, true) => (-0x8000_0000, 0x7fff_ffff), (4, false) => (-0x8000_0000, 0xffff_ffff), _ => (i128::MIN, i128::MAX) };
+                                let fits = ev.iter().all(|v| lo <= *v as i128 && *v as i128 <= hi);
+                                let accept = (def < nv) == defaultable && sing != Some(-1) && fits;
                                 let o = build_one(&src, 8);
                                 n += 1;
                                 let mut fail = |e: String, a: String| out.push(Fail { family: "enum", input: src.clone(), ptr: 8, expected: e, actual: a });
